@@ -17,6 +17,8 @@ VERIF = os.path.dirname(os.path.dirname(os.path.abspath(__file__)))
 
 def one(d, jobs):
     m = json.load(open(os.path.join(d, "meta.json")))
+    if m.get("no_longer_manifests"):
+        return m["id"], "retired", None
     props = sorted({m["breaks_property"]} | {k.split("@")[0] for k in m.get("caught_by", [])})
     p = subprocess.run(["/venv/bin/python", os.path.join(VERIF, "tools", "seedtest.py"), d, "--props", ",".join(props),
                         "--jobs", str(jobs)], capture_output=True, text=True, timeout=7200)
@@ -39,6 +41,9 @@ def main():
     missed = 0
     with concurrent.futures.ThreadPoolExecutor(args.jobs) as ex:
         for sid, out, err in ex.map(lambda d: one(d, per), dirs):
+            if out == "retired":
+                print(f"RETIRED  {sid}: no longer manifests on the current tree (see meta.json)")
+                continue
             if out is None:
                 print(f"ERROR    {sid}: {err}")
                 missed += 1
